@@ -18,10 +18,24 @@ RELATED = {"C01": ["C01", "C05", "C04", "C10"], "C02": ["C02", "C05", "C04"], "C
 
 
 def main():
-    names = sys.argv[1:] or sorted(os.listdir(os.path.join(ROOT, "seeded")))
-    names = [n for n in names if os.path.isdir(os.path.join(ROOT, "seeded", n))]
+    """usage: mutant_matrix.py [--merge] [mutant ...]     per-mutant results go to out/matrix/<name>.json (safe to run several processes on
+    disjoint mutant sets); --merge folds them into seeded/MATRIX.json"""
+    argv = sys.argv[1:]
+    part_dir = os.path.join(ROOT, "out", "matrix")
+    os.makedirs(part_dir, exist_ok=True)
     out_path = os.path.join(ROOT, "seeded", "MATRIX.json")
-    matrix = json.load(open(out_path)) if os.path.exists(out_path) else {}
+    if argv and argv[0] == "--merge":
+        matrix = json.load(open(out_path)) if os.path.exists(out_path) else {}
+        for fn in sorted(os.listdir(part_dir)):
+            matrix[fn[:-5]] = json.load(open(os.path.join(part_dir, fn)))
+        json.dump(matrix, open(out_path, "w"), indent=1, sort_keys=True)
+        for k in sorted(matrix):
+            det = [p for p, v in matrix[k].items() if v["exit"] == 1]
+            bad = [p for p, v in matrix[k].items() if v["exit"] not in (0, 1)]
+            print(k, "detected by", det, ("EXIT2 " + str(bad)) if bad else "", "" if det else "   <-- NOT DETECTED")
+        return
+    names = argv or sorted(os.listdir(os.path.join(ROOT, "seeded")))
+    names = [n for n in names if os.path.isdir(os.path.join(ROOT, "seeded", n))]
     for name in names:
         wt = tempfile.mkdtemp(prefix="mm-%s-" % name)
         os.rmdir(wt)
@@ -39,10 +53,9 @@ def main():
                 more = re.search(r"\.\.\. (\d+) further", p.stdout)
                 row[pid] = {"exit": p.returncode, "violations": nv + (int(more.group(1)) if more else 0)}
                 print(name, pid, row[pid], flush=True)
-            matrix[name] = row
+            json.dump(row, open(os.path.join(part_dir, name + ".json"), "w"), indent=1, sort_keys=True)
         finally:
             subprocess.call(["git", "-C", "/repo", "worktree", "remove", "--force", wt])
-        json.dump(matrix, open(out_path, "w"), indent=1, sort_keys=True)
 
 
 if __name__ == "__main__":
